@@ -10,6 +10,7 @@ from lib import framework as fw
 from props import walk_common as wc
 from props import xargs_common as xc
 from props import names_common as nc
+from props import known_common as kc
 
 RULE = ("(tree of hostile names, spelling of the starting point, -print0 or -print) cases in-process plus real find | xargs -0 pipelines; "
         "non-trivial = distinct case whose tree has a name with a blank, newline, quote, backslash, glob character or leading dash")
@@ -62,6 +63,7 @@ def run(ctx):
         ctx.sample({"starting_point": cases[0][2].decode("utf-8", "replace"), "tree": wc.spec_json(cases[0][1])})
         pipeline(ctx, forest, cases)
         to_file(ctx, forest, cases)
+        kc.path_max(ctx, "C07", forest.dir)
     finally:
         forest.close()
 
